@@ -445,6 +445,11 @@ func nonNilErrOperand(v ssa.Value, errVals []ssa.Value) bool {
 // onErrorReturnsErr: from the err!=nil edge of s, every reachable return carries a non-nil error, and at
 // least one return is reachable.
 func onErrorReturnsErr(fn *ssa.Function, s ssa.CallInstruction) (ok bool, decided bool, why string) {
+	return onErrorReturnsErrExcept(fn, s, nil)
+}
+
+// onErrorReturnsErrExcept is onErrorReturnsErr with the listed classifier edges (e.g. IsNotFound) removed.
+func onErrorReturnsErrExcept(fn *ssa.Function, s ssa.CallInstruction, except []edge) (ok bool, decided bool, why string) {
 	ts := errTests(s)
 	ei := errResultIndex(fn)
 	if ei < 0 {
@@ -464,7 +469,7 @@ func onErrorReturnsErr(fn *ssa.Function, s ssa.CallInstruction) (ok bool, decide
 	}
 	evs := errValues(s)
 	for _, t := range ts {
-		r := reachFromEdge(t.ErrEdge, nil)
+		r := reachFromEdge(t.ErrEdge, newCut().edge(except...))
 		n := 0
 		for _, ret := range returns(fn) {
 			if !r.has(ret) {
